@@ -141,7 +141,7 @@ def _set(multi=False, pipe=False):
         for code in (["en-US", "fr-FR"] if multi else ["en-US"]):
             s = draw(gen.simple_set(ln, 1, 6, gen.DAY - gen.MIN, min_dur=40 * gen.MS,
                                     empty_lines=True, split_nodes=False, max_lines=3,
-                                    empty_kinds=("br", "style"), edge_breaks=True))
+                                    empty_kinds=("br", "style", "blank"), edge_breaks=True))
             lang = s["langs"][0]
             lang["code"] = code
             if draw(st.integers(0, 4)) == 0 and lang["cues"]:
